@@ -339,11 +339,14 @@ class Ctx:
 
         n = 2
         rounds = 0
-        while len(body) >= 2 and rounds < budget:
+        t_end = time.time() + 45          # minimisation is a convenience: never let it eat the check's time budget
+        while len(body) >= 2 and rounds < budget and time.time() < t_end:
             rounds += 1
             size = max(1, len(body) // n)
             chunks = [body[i:i + size] for i in range(0, len(body), size)]
             cands = [sum(chunks[:i] + chunks[i + 1:], []) for i in range(len(chunks))]
+            if len(cands) > 24:
+                break
             res = differs(cands)
             hit = [c for c, r in zip(cands, res) if r]
             if hit:
